@@ -413,6 +413,24 @@ pub fn run() {
                 Some(i) => {
                     nodes[i].kill();
                     nodes[i].spawn(base, snap);
+                    // with auth on: a node that is caught up by a snapshot does not know the sessions the snapshot holds (they
+                    // are loaded as expired); the harness logs in again through a node that is up - the new session reaches
+                    // the started node as an ordinary log entry - and carries the new token from then on
+                    if AUTH_TTL.load(std::sync::atomic::Ordering::SeqCst) > 0 && GLOBAL_TOKEN.lock().map(|g| g.is_some()).unwrap_or(false) {
+                        for k in 0..nodes.len() {
+                            if k == i || !nodes[k].alive() {
+                                continue;
+                            }
+                            if let Some((200, b)) = http(nodes[k].http, "POST", "/nacos/v1/auth/login?username=admin&password=admin", 4000) {
+                                if let Some(t) = serde_json::from_str::<serde_json::Value>(&b).ok().and_then(|v| v["accessToken"].as_str().map(|x| x.to_string())) {
+                                    if let Ok(mut g) = GLOBAL_TOKEN.lock() {
+                                        *g = Some(t);
+                                    }
+                                    break;
+                                }
+                            }
+                        }
+                    }
                     "ok".to_string()
                 }
                 None => "bad-op".to_string(),
